@@ -146,6 +146,10 @@ func c16Combined(c *core.Ctx, b core.Batch, rep int) {
 		}
 		return idxIQ(qs, v)
 	}).AddIndex(badgerstore.Index{Name: "k", Key: idxKey("k", nil)}).AddIndex(badgerstore.Index{Name: "x2", Key: idxKey("k2", nil)})
+	// a second store without query store, holding collections: several goroutines write
+	// different ids at the same time, each change is diffed into add/remove events by the
+	// one handler that serves the pattern
+	stc := badgerstore.NewStore(db).SetPrefix("col").SetType([]interface{}(nil))
 	trans := store.IDToRIDCollectionTransformer(func(id string) string { return "svc.item." + id })
 	tbl := &scriptTable{}
 	scratch := &sync.Map{}
@@ -174,6 +178,7 @@ func c16Combined(c *core.Ctx, b core.Batch, rep int) {
 		s.SetQueryEventDuration(6 * time.Millisecond)
 		scriptedService(s, tbl, func(kind string, r res.Resource) { touch(r.Group(), kind) })
 		s.Handle("item.$id", res.Model, store.Handler{Store: st, Transformer: store.IDTransformer("id", nil)})
+		s.Handle("col.$id", res.Collection, store.Handler{Store: stc, Transformer: store.IDTransformer("id", nil)})
 		s.Handle("all", res.Collection, store.QueryHandler{QueryStore: qs, Transformer: trans,
 			RequestHandler: func(string, map[string]string) (url.Values, error) {
 				return idxQuery{Index: "k", Limit: -1}.values(), nil
@@ -289,6 +294,24 @@ func c16Combined(c *core.Ctx, b core.Batch, rep int) {
 					rt.Value()
 					rt.Exists()
 					rt.Close()
+				}
+			})
+		}
+		for g := 0; g < 3; g++ {
+			g := g
+			worker(fmt.Sprintf("collection-store%d", g), func(r interface{ Intn(int) int }, n int) {
+				id := fmt.Sprintf("c%d-%d", g, r.Intn(2))
+				l := make([]interface{}, 4+r.Intn(8))
+				for i := range l {
+					l[i] = fmt.Sprintf("v%d", r.Intn(9))
+				}
+				wt := stc.Write(id)
+				if wt.Update(l) != nil {
+					wt.Create(l)
+				}
+				wt.Close()
+				if n%8 == 0 {
+					rg.send("get.svc.col."+id, nil)
 				}
 			})
 		}
